@@ -625,7 +625,7 @@ func (p *Program) ruleNudge(c *Check) {
 			if lhs != "" && p.src(call.Args[0]) != lhs {
 				return false
 			}
-			inf, ok := ast.Unparen(call.Args[1]).(*ast.CallExpr)
+			inf, ok := resolveSingleDef(cinfo, fd.Body, call.Args[1]).(*ast.CallExpr)
 			if !ok || len(inf.Args) != 1 {
 				return false
 			}
@@ -1237,7 +1237,41 @@ func (p *Program) ruleCyclicNeighbours(c *Check) {
 		c.Undecided("E12.cyclic", con, p.declPos(fn), "the turn computation over three point variables was not found")
 		return
 	}
-	// backward slice: top-level statements of the loop body (before the turn computation) that write one of the three variables
+	// backward slice: top-level statements of the loop body (before the turn computation) that write one of the
+	// three variables, an integer local, or a variable one of those is computed from (p := points[i]; a = p)
+	relevant := map[types.Object]bool{}
+	for o := range pointVars {
+		relevant[o] = true
+	}
+	for changed := true; changed; {
+		changed = false
+		ast.Inspect(loopBody, func(m ast.Node) bool {
+			as, ok := m.(*ast.AssignStmt)
+			if !ok || as.Pos() >= turn.Pos() {
+				return true
+			}
+			hit := false
+			for _, l := range as.Lhs {
+				if id, ok := l.(*ast.Ident); ok && relevant[info.ObjectOf(id)] {
+					hit = true
+				}
+			}
+			if hit {
+				for _, r := range as.Rhs {
+					ast.Inspect(r, func(k ast.Node) bool {
+						if id, ok := k.(*ast.Ident); ok {
+							if o, isVar := info.ObjectOf(id).(*types.Var); isVar && !relevant[o] && o != ptsObj && o != idxObj && !o.IsField() {
+								relevant[o] = true
+								changed = true
+							}
+						}
+						return true
+					})
+				}
+			}
+			return true
+		})
+	}
 	var slice []ast.Stmt
 	for _, st := range loopBody.List {
 		if st.Pos() >= turn.Pos() {
@@ -1249,7 +1283,7 @@ func (p *Program) ruleCyclicNeighbours(c *Check) {
 				return false
 			}
 			for _, l := range as.Lhs {
-				if id, ok := l.(*ast.Ident); ok && (pointVars[info.ObjectOf(id)] || isIntLocal(info, id)) {
+				if id, ok := l.(*ast.Ident); ok && (relevant[info.ObjectOf(id)] || isIntLocal(info, id)) {
 					return true
 				}
 			}
@@ -1367,4 +1401,44 @@ func isIntLocal(info *types.Info, id *ast.Ident) bool {
 	}
 	bt, ok := o.Type().Underlying().(*types.Basic)
 	return ok && bt.Info()&types.IsInteger != 0
+}
+
+// resolveSingleDef: an identifier of a local that is defined exactly once (x := e) and never
+// assigned again stands for e; anything else stands for itself.
+func resolveSingleDef(info *types.Info, body *ast.BlockStmt, e ast.Expr) ast.Expr {
+	id, ok := ast.Unparen(e).(*ast.Ident)
+	if !ok || body == nil {
+		return ast.Unparen(e)
+	}
+	obj := info.ObjectOf(id)
+	var def ast.Expr
+	n := 0
+	ast.Inspect(body, func(nd ast.Node) bool {
+		switch st := nd.(type) {
+		case *ast.AssignStmt:
+			for i, l := range st.Lhs {
+				if lid, ok := l.(*ast.Ident); ok && info.ObjectOf(lid) == obj {
+					n++
+					if len(st.Lhs) == len(st.Rhs) && st.Tok == token.DEFINE {
+						def = st.Rhs[i]
+					} else {
+						n += 10
+					}
+				}
+			}
+		case *ast.IncDecStmt:
+			if lid, ok := st.X.(*ast.Ident); ok && info.ObjectOf(lid) == obj {
+				n += 10
+			}
+		case *ast.UnaryExpr:
+			if lid, ok := st.X.(*ast.Ident); ok && st.Op == token.AND && info.ObjectOf(lid) == obj {
+				n += 10
+			}
+		}
+		return true
+	})
+	if n == 1 && def != nil {
+		return ast.Unparen(def)
+	}
+	return ast.Unparen(e)
 }
